@@ -32,14 +32,15 @@ type Action struct {
 
 // Config of one scenario's executions.
 type Config struct {
-	Fine     bool          // park goroutines at sync points (else points are free)
-	Files    []string      // base names of kafka-go files whose points park (empty = all)
-	Kinds    []vhook.Kind  // kinds that park (empty = Lock,RLock,WGWait,Once)
-	Horizon  time.Duration // virtual-time horizon of one execution
-	Quantum  time.Duration // first idle tick length (doubles while idle)
-	Grace    time.Duration // virtual time granted after the body finished, before the leak census
-	MaxSteps int           // safety valve per execution
-	NoTick   bool          // never offer the tick as an alternative while something else is enabled
+	Fine      bool          // park goroutines at sync points (else points are free)
+	Files     []string      // base names of kafka-go files whose points park (empty = all)
+	Kinds     []vhook.Kind  // kinds that park (empty = Lock,RLock,WGWait,Once)
+	WakeFiles []string      // files (among Files) in which the points after channel operations and at the start of select cases are decisions too
+	Horizon   time.Duration // virtual-time horizon of one execution
+	Quantum   time.Duration // first idle tick length (doubles while idle)
+	Grace     time.Duration // virtual time granted after the body finished, before the leak census
+	MaxSteps  int           // safety valve per execution
+	NoTick    bool          // never offer the tick as an alternative while something else is enabled
 }
 
 type Step struct {
@@ -70,6 +71,7 @@ type pcInfo struct {
 	inFiles  bool
 	waitResp bool
 	derived  bool
+	wakeDec  bool
 }
 
 type parked struct {
@@ -370,6 +372,11 @@ func (x *Exec) point(k vhook.Kind, obj any) {
 		}
 		pi.waitResp = strings.Contains(pi.fn, "waitResponse")
 		pi.inFiles = x.files == nil || x.files[pi.file]
+		for _, f := range x.Cfg.WakeFiles {
+			if f == pi.file {
+				pi.wakeDec = true
+			}
+		}
 	}
 	g := x.gorLocked(gid)
 	// A spin iteration: the goroutine re-locks the mutex it has just released, at
@@ -401,7 +408,7 @@ func (x *Exec) point(k vhook.Kind, obj any) {
 		}
 	}
 	g.lastUnlock = nil
-	auto := !x.Cfg.Fine || k == vhook.KEnv || k == vhook.KWake || (!pi.inFiles && k != vhook.KUser)
+	auto := !x.Cfg.Fine || k == vhook.KEnv || (k == vhook.KWake && !pi.wakeDec) || (!pi.inFiles && k != vhook.KUser)
 	p := &parked{g: g, kind: k, obj: obj, pc: pc, yield: yield, prog: x.progress, auto: auto, ch: make(chan struct{})}
 	x.addParkedLocked(p)
 	x.mu.Unlock()
